@@ -201,6 +201,44 @@ func c19Reader(c *Ctx, f, np *ssa.Function) {
 		}
 	})
 	c.Check(okCnt && ncnt > 0, "K-C19-pad", fn, "byte counter += count returned by the source", "", "the counter that determines the pad length does not accumulate exactly the source's byte counts", f.Pos())
+	// every count is added before the pad is created or the source is read again: with the counter
+	// updates removed from the graph, neither newPadding/pad reads nor the next source read are reachable
+	// from a source read
+	for _, sr := range srcReads {
+		var stores []ssa.Instruction
+		instrsOf(f, func(_ *ssa.BasicBlock, in ssa.Instruction) {
+			st, isSt := in.(*ssa.Store)
+			if !isSt {
+				return
+			}
+			fa, isFA := st.Addr.(*ssa.FieldAddr)
+			if !isFA || fa.X != ssa.Value(recv) || fieldName(fa.X.Type(), fa.Field) != "readed" {
+				return
+			}
+			if bo, isB := st.Val.(*ssa.BinOp); isB {
+				if ex, isEx := stripConvAll(bo.Y).(*ssa.Extract); isEx && ex.Tuple == ssa.Value(sr) {
+					stores = append(stores, st)
+				}
+			}
+		})
+		var targets []ssa.Instruction
+		for _, x := range padReads {
+			targets = append(targets, x)
+		}
+		for _, x := range npCalls {
+			targets = append(targets, x)
+		}
+		targets = append(targets, sr)
+		bad := ""
+		var badPos token.Pos
+		for _, t := range targets {
+			if reachesAvoidingAll(sr, t, stores) {
+				bad = "after a source read, " + c.P.pos(t.Pos()) + " is reachable without the returned count having been added to the byte counter (bytes delivered together with io.EOF would be left out of the pad computation)"
+				badPos = t.Pos()
+			}
+		}
+		c.Check(bad == "", "K-C19-pad", fn, "every source count is added before the pad is computed or the source is read again", "", bad, badPos)
+	}
 	// source errors other than EOF are returned
 	spec, _ := defaultResultSpec(f)
 	_ = spec
@@ -416,4 +454,52 @@ func c19Stream(c *Ctx, f *ssa.Function) {
 	lb := &LB{p: c.P, f: f, UsedContracts: map[string]bool{}}
 	okDst := lb.prove([]cons{ge(lb.lenLin(cb.Call.Args[0]), lb.lenLin(cb.Call.Args[1]))}, cb.Block(), nil, map[lvar]lin{}, 0)
 	c.Check(okDst, "B-PRE-C19", fn, "len(dst) >= len(src) for CryptBlocks", "", "the destination buffer may be shorter than the source", cb.Pos())
+}
+
+// reachesAvoidingAll: control can flow from just after instruction a to instruction b without executing
+// any instruction of avoid.
+func reachesAvoidingAll(a, b ssa.Instruction, avoid []ssa.Instruction) bool {
+	isAvoid := func(in ssa.Instruction) bool {
+		for _, x := range avoid {
+			if x == in {
+				return true
+			}
+		}
+		return false
+	}
+	// walk instruction-wise: state = (block, index)
+	type st struct {
+		b *ssa.BasicBlock
+		i int
+	}
+	seen := map[st]bool{}
+	var stack []st
+	stack = append(stack, st{a.Block(), instrIndex(a) + 1})
+	for len(stack) > 0 {
+		cur := stack[len(stack)-1]
+		stack = stack[:len(stack)-1]
+		if seen[cur] {
+			continue
+		}
+		seen[cur] = true
+		blk := cur.b
+		stopped := false
+		for i := cur.i; i < len(blk.Instrs); i++ {
+			in := blk.Instrs[i]
+			if in == b {
+				return true
+			}
+			if isAvoid(in) {
+				stopped = true
+				break
+			}
+		}
+		if stopped {
+			continue
+		}
+		for _, s := range blk.Succs {
+			stack = append(stack, st{s, 0})
+		}
+	}
+	return false
 }
